@@ -192,7 +192,33 @@ fn scrub(s: &str) -> String {
         }
     }
     out.push_str(rest);
-    out
+    let mut rest2 = out.as_str();
+    let mut o3 = String::with_capacity(out.len());
+    while let Some(i) = rest2.find("InternedStr(0x") {
+        o3.push_str(&rest2[..i + 12]);
+        let j = rest2[i + 12..].find(',').unwrap_or(0);
+        rest2 = &rest2[i + 12 + j..];
+    }
+    o3.push_str(rest2);
+    let out = o3;
+    // `name@line_col` uniquifier suffixes are (deliberately) not serialised: symbol::serialize
+    // writes `Symbol::as_ref()`; drop them on both sides
+    let b: Vec<char> = out.chars().collect();
+    let mut o2 = String::with_capacity(b.len());
+    let mut i = 0;
+    while i < b.len() {
+        if b[i] == '@' && i + 1 < b.len() && b[i + 1].is_ascii_digit() {
+            let mut j = i + 1;
+            while j < b.len() && (b[j].is_ascii_digit() || b[j] == '_') {
+                j += 1;
+            }
+            i = j;
+            continue;
+        }
+        o2.push(b[i]);
+        i += 1;
+    }
+    o2
 }
 
 /// Debug rendering of the compiled module as produced by the compiler …
@@ -423,7 +449,7 @@ impl<'a> Gen<'a> {
             }
             Ty::Bool => {
                 if leaf {
-                    return self.rng.pick(&["True", "False"]).to_string();
+                    return self.rng.pick(&["(0 #Int== 0)", "(0 #Int== 1)"]).to_string();
                 }
                 match self.rng.below(4) {
                     0 => format!("({} #Int< {})", self.expr(Ty::Int, d - 1), self.expr(Ty::Int, d - 1)),
@@ -566,13 +592,13 @@ fn gen_program(rng: &mut Rng, prelude: bool, helper: bool) -> Prog {
                 g.feat("rec-group");
                 let (e, o) = (g.fresh("even"), g.fresh("odd"));
                 src.push_str(&format!(
-                    "rec\nlet {e} n = if n #Int== 0 then True else {o} (n #Int- 1)\nlet {o} n = if n #Int== 0 then False else {e} (n #Int- 1)\nin\n",
+                    "rec\nlet {e} n = if n #Int== 0 then 1 else {o} (n #Int- 1)\nlet {o} n = if n #Int== 0 then 0 else {e} (n #Int- 1)\nin\n",
                     e = e,
                     o = o
                 ));
                 let x = g.fresh("v");
                 let k = g.rng.below(30);
-                src.push_str(&format!("let {} = if {} {} then 1 else 0\n", x, e, k));
+                src.push_str(&format!("let {} = {} {}\n", x, e, k));
                 g.env.push((x, Ty::Int));
             }
             1 => {
@@ -827,6 +853,49 @@ fn short_path(p: &str) -> String {
     parts[n.saturating_sub(2)..].join("/")
 }
 
+/// Every instruction operand / function-header count (first occurrence of each path) set to
+/// u32::MAX: the deterministic part of the "single-field corruption" stream.
+fn systematic_operands(bytes: &[u8]) -> Vec<Corruption> {
+    let mut out = vec![];
+    let root = match jscan(bytes) {
+        Some(r) => r,
+        None => return out,
+    };
+    let mut all = vec![];
+    jflatten(&root, "", &mut all);
+    let mut seen = std::collections::BTreeSet::new();
+    for (nd, p) in &all {
+        let sp = short_path(p);
+        if nd.kind == JK::Num && is_operand_path(&sp) && !sp.ends_with("PushInt") && !sp.ends_with("PushByte") && seen.insert(sp.clone()) {
+            let mut v = bytes[..nd.start].to_vec();
+            v.extend_from_slice(b"4294967295");
+            v.extend_from_slice(&bytes[nd.end..]);
+            out.push(Corruption { kind: "number", path: sp, text: v, must_err: false });
+        }
+    }
+    out
+}
+
+/// Names in `module.module_globals` of a serialised module (without the leading `@`).
+fn module_globals(bytes: &[u8]) -> Vec<String> {
+    let mut out = vec![];
+    if let Some(root) = jscan(bytes) {
+        let mut all = vec![];
+        jflatten(&root, "", &mut all);
+        for (nd, p) in &all {
+            if nd.kind == JK::Str && p.contains("/module_globals") {
+                let s = String::from_utf8_lossy(&bytes[nd.start + 1..nd.end - 1]).into_owned();
+                out.push(s.trim_start_matches('@').to_string());
+            }
+        }
+    }
+    out
+}
+
+fn strs_sexp(v: &[String]) -> String {
+    format!("({})", v.iter().map(|s| gv::quote(s)).collect::<Vec<_>>().join(" "))
+}
+
 #[derive(Debug, Clone)]
 struct Corruption {
     kind: &'static str,
@@ -852,7 +921,7 @@ fn corruptions(rng: &mut Rng, bytes: &[u8], n: usize) -> Vec<Corruption> {
     let mut out = vec![];
     // targeted: every referenced global renamed (must be rejected)
     for (nd, p) in &all {
-        if nd.kind == JK::Str && p.ends_with("/module_globals") {
+        if nd.kind == JK::Str && p.contains("/module_globals") {
             let mut rep = bytes[nd.start..nd.end - 1].to_vec();
             rep.extend_from_slice(b"_undefined\"");
             out.push(Corruption {
@@ -867,8 +936,11 @@ fn corruptions(rng: &mut Rng, bytes: &[u8], n: usize) -> Vec<Corruption> {
         let (nd, p) = &all[rng.below(all.len() as u64) as usize];
         let sp = short_path(p);
         match rng.below(5) {
-            0 | 1 if nd.kind == JK::Num => {
-                let rep: String = match rng.below(6) {
+            0 | 1 if nd.kind == JK::Num && !sp.ends_with("PushInt") => {
+                // a changed jump target / constant inside the range is simply another valid
+                // program (possibly a non-terminating one): only out-of-range targets are damage
+                let jump = sp.ends_with("Jump") || sp.ends_with("CJump");
+                let rep: String = match if jump { rng.below(3) + 1 } else { rng.below(6) } {
                     0 => "0".into(),
                     1 => "4294967295".into(),
                     2 => "1000000".into(),
@@ -1364,10 +1436,17 @@ fn child_load() {
         let bytes: Vec<u8> = (0..hex.len() / 2)
             .map(|i| u8::from_str_radix(&hex[2 * i..2 * i + 2], 16).unwrap())
             .collect();
-        let ent = vms.entry(flags.clone()).or_insert_with(|| (mk_vm(flags.contains('p'), flags.contains('h')), 0));
+        let mk = |flags: &str| {
+            let vm = mk_vm(flags.contains('p'), flags.contains('h'));
+            if flags.contains('p') {
+                let _ = vm.run_expr::<OpaqueValue<&Thread, Hole>>("warm", "0");
+            }
+            vm
+        };
+        let ent = vms.entry(flags.clone()).or_insert_with(|| (mk(&flags), 0));
         ent.1 += 1;
         if ent.1 > 200 {
-            *ent = (mk_vm(flags.contains('p'), flags.contains('h')), 0);
+            *ent = (mk(&flags), 0);
         }
         {
             let mut o = so.lock();
@@ -1375,6 +1454,10 @@ fn child_load() {
             o.flush().unwrap();
         }
         let r = run_bc(&ent.0, "test", &bytes);
+        if matches!(&r, Err(e) if e.starts_with("PANIC ")) {
+            // a panic inside the VM poisons its locks: never reuse it
+            ent.1 = 1000;
+        }
         let mut o = so.lock();
         match r {
             Ok(v) => writeln!(o, "R {} ok {}", n, v.replace('\n', " ")).unwrap(),
@@ -1414,7 +1497,7 @@ fn run_batch(cases: &[(String, Vec<u8>)]) -> Vec<LoadOutcome> {
             input.push_str(&hex(b));
             input.push('\n');
         }
-        let timeout = Duration::from_secs(60 + (cases.len() - start) as u64 / 20);
+        let timeout = Duration::from_secs(20 + (cases.len() - start) as u64 / 40);
         let ex = gv::child::run(&["--child", "load"], input.as_bytes(), timeout);
         let (stdout, how) = match &ex {
             gv::child::Exit::Ok(o) => (o.clone(), "ok".to_string()),
@@ -1491,6 +1574,11 @@ fn vms(prelude: bool, helper: bool) -> Vms {
         b: mk_vm(prelude, helper),
         uses: 0,
     };
+    if prelude {
+        // bytecode does not import what it references: the loading VM must have the modules the
+        // implicit prelude brings in (a VM that lacks them is the `missing-module` damage case)
+        let _ = v.b.run_expr::<OpaqueValue<&Thread, Hole>>("warm", "0");
+    }
     v
 }
 
@@ -1503,6 +1591,7 @@ fn check_program(
     damaged: &mut Vec<(String, Vec<u8>, serde_json::Value, &'static str, String, bool)>,
     n_trunc: usize,
     n_corrupt: usize,
+    systematic: bool,
 ) {
     let replay = |extra: serde_json::Value| {
         let mut r = json!({"kind": "program", "src": p.src, "prelude": p.prelude, "helper": p.helper});
@@ -1557,8 +1646,9 @@ fn check_program(
             if x != y {
                 let at = x.bytes().zip(y.bytes()).position(|(a, b)| a != b).unwrap_or(x.len().min(y.len()));
                 let ctx = |s: &str| s.chars().skip(at.saturating_sub(60)).take(140).collect::<String>();
+                let fp = if ctx(&x).contains("EqFloat(") { "module-structure-changed:PushFloat" } else { "module-structure-changed" };
                 out.oracle_fail(
-                    "module-structure-changed",
+                    fp,
                     "the deserialised module differs (Debug rendering) from the compiled one",
                     replay(json!({"compiled": ctx(&x), "loaded": ctx(&y)})),
                 );
@@ -1578,24 +1668,42 @@ fn check_program(
     }
     let mut targets: Vec<(&'static str, RootedThread)> = vec![("same-vm", vs.a.clone()), ("other-vm", vs.b.clone())];
     if fresh_every {
-        targets.push(("new-vm", mk_vm(p.prelude, p.helper)));
+        let nv = mk_vm(p.prelude, p.helper);
+        if p.prelude {
+            let _ = nv.run_expr::<OpaqueValue<&Thread, Hole>>("warm", "0");
+        }
+        targets.push(("new-vm", nv));
     }
     for (which, vm) in &targets {
-        match (run_bc(vm, "test", &bytes), &direct) {
+        let rb = run_bc(vm, "test", &bytes);
+        if p.helper && !p.prelude && *which == "other-vm" {
+            let w = module_globals(&bytes);
+            if !w.is_empty() {
+                let pl = match &rb {
+                    Ok(_) => "ok",
+                    Err(e) if e.starts_with("PANIC") => "panic",
+                    Err(e) if err_class(e) == "overflow" => "ok", // globals resolved, the program itself fails
+                    Err(_) => "error",
+                };
+                out.case(&format!("globals {} {}", strs_sexp(&["gvmod".to_string()]), strs_sexp(&w)), pl);
+                out.count(&format!("globals:{}", pl));
+            }
+        }
+        match (rb, &direct) {
             (Ok(v), Ok(d)) if v == *d => out.count(&format!("A:equal:{}", which)),
             (Ok(v), Ok(d)) => out.oracle_fail(
-                &format!("result-differs:{}:{}", which, first_diff_kind(d, &v)),
+                &format!("result-differs:{}", first_diff_kind(d, &v)),
                 &format!("bytecode loaded in {} evaluates to a different value than the source", which),
                 replay(json!({"source": d, "bytecode": v, "where": which})),
             ),
             (Err(e), Err(d)) if err_class(&e) == *d => out.count(&format!("A:equal-error:{}", which)),
             (Ok(v), Err(d)) => out.oracle_fail(
-                &format!("error-lost:{}:{}", which, d),
+                &format!("error-lost:{}", d),
                 &format!("the source fails at run time ({}) but its bytecode evaluates to a value in {}", d, which),
                 replay(json!({"source_error": d, "bytecode": v, "where": which})),
             ),
             (Err(e), _) => out.oracle_fail(
-                &format!("load-fails:{}:{}", which, if e.starts_with("PANIC") { crash_class(&e) } else { err_class(&e) }),
+                &format!("load-fails:{}", if e.starts_with("PANIC") { crash_class(&e) } else { err_class(&e) }),
                 &format!("bytecode of a valid program fails to load/run in {}: {}", which, e),
                 replay(json!({"where": which})),
             ),
@@ -1607,9 +1715,11 @@ fn check_program(
     }
     // bytecode naming a module the VM does not have (helper programs only): must be Err
     let flags = format!("{}{}", if p.prelude { "p" } else { "-" }, if p.helper { "h" } else { "" });
-    if p.helper && p.feats.contains(&"import-helper") {
+    let names_helper = String::from_utf8_lossy(&bytes).contains("\"@gvmod\"");
+    if p.helper && names_helper {
         let fl = if p.prelude { "p".to_string() } else { "-".to_string() };
-        damaged.push((fl, bytes.clone(), replay(json!({"damage": "vm-without-gvmod"})), "missing-module", "gvmod".into(), true));
+        let wanted = module_globals(&bytes);
+        damaged.push((fl, bytes.clone(), replay(json!({"damage": "vm-without-gvmod", "wanted": wanted, "defined": []})), "missing-module", "gvmod".into(), true));
     }
     // truncations
     let n = bytes.len();
@@ -1622,11 +1732,20 @@ fn check_program(
         };
         damaged.push((flags.clone(), bytes[..cut].to_vec(), replay(json!({"damage": "truncate", "at": cut})), "truncate", format!("{}", cut * 10 / n), true));
     }
-    for c in corruptions(rng, &bytes, n_corrupt) {
+    let mut cs = corruptions(rng, &bytes, n_corrupt);
+    if systematic {
+        cs.extend(systematic_operands(&bytes));
+    }
+    for c in cs {
+        let mut rp = replay(json!({"damage": c.kind, "path": c.path, "text": String::from_utf8_lossy(&c.text)}));
+        if c.kind == "rename-global" && p.helper && !p.prelude {
+            rp["wanted"] = json!(module_globals(&c.text));
+            rp["defined"] = json!(["gvmod"]);
+        }
         damaged.push((
             flags.clone(),
             c.text.clone(),
-            replay(json!({"damage": c.kind, "path": c.path, "text": String::from_utf8_lossy(&c.text)})),
+            rp,
             c.kind,
             c.path.clone(),
             c.must_err,
@@ -1652,6 +1771,18 @@ fn first_diff_kind(a: &str, b: &str) -> &'static str {
     }
 }
 
+/// Is the JSON path an instruction operand / a function-header count that the interpreter trusts?
+fn is_operand_path(path: &str) -> bool {
+    const INSTR: &[&str] = &[
+        "instructions", "PushInt", "PushByte", "PushString", "PushUpVar", "Push", "Call", "TailCall",
+        "ConstructVariant", "ConstructPolyVariant", "NewVariant", "NewRecord", "CloseData",
+        "ConstructRecord", "ConstructArray", "GetOffset", "GetField", "TestTag", "TestPolyTag", "Jump",
+        "CJump", "Pop", "Slide", "MakeClosure", "NewClosure", "CloseClosure",
+    ];
+    let parts: Vec<&str> = path.split('/').collect();
+    parts.iter().any(|p| INSTR.contains(p)) || matches!(parts.last(), Some(&"max_stack_size") | Some(&"args"))
+}
+
 fn judge_damaged(
     out: &mut Out,
     damaged: Vec<(String, Vec<u8>, serde_json::Value, &'static str, String, bool)>,
@@ -1660,6 +1791,19 @@ fn judge_damaged(
     let res = run_batch(&cases);
     for (d, r) in damaged.iter().zip(res) {
         let (_, _, replay, kind, path, must_err) = d;
+        if let (Some(w), Some(df)) = (replay.get("wanted").and_then(|x| x.as_array()), replay.get("defined").and_then(|x| x.as_array())) {
+            // correspondence with `Loader.resolveGlobals`: a missing global decides the outcome
+            let w: Vec<String> = w.iter().filter_map(|x| x.as_str().map(|s| s.to_string())).collect();
+            let df: Vec<String> = df.iter().filter_map(|x| x.as_str().map(|s| s.to_string())).collect();
+            let pl = match &r {
+                LoadOutcome::Ok(_) => "ok",
+                LoadOutcome::Err(_) => "error",
+                LoadOutcome::Panic(_) => "panic",
+                LoadOutcome::Crash(_) => "crash",
+            };
+            out.case(&format!("globals {} {}", strs_sexp(&df), strs_sexp(&w)), pl);
+            out.count(&format!("globals:{}", pl));
+        }
         match r {
             LoadOutcome::Err(e) => {
                 out.count(&format!("B:{}:err:{}", kind, err_class(&e)));
@@ -1679,17 +1823,37 @@ fn judge_damaged(
             }
             LoadOutcome::Panic(m) => {
                 out.count(&format!("B:{}:panic", kind));
+                let operand = *kind == "number" && is_operand_path(path);
+                if operand {
+                    out.count(&format!("B:unvalidated-operand:panic:{}", path));
+                }
                 out.oracle_fail(
-                    &format!("panic:{}:{}", kind, crash_class(&m)),
+                    &if operand {
+                        "unvalidated-operand:panic".to_string()
+                    } else {
+                        format!("panic:{}:{}", kind, if *kind == "truncate" || *kind == "missing-module" || *kind == "rename-global" { crash_class(&m) } else { path.clone() })
+                    },
                     &format!("loading damaged bytecode ({} at {}) panics instead of returning an error: {}", kind, path, m),
                     replay.clone(),
                 );
             }
+            LoadOutcome::Crash(how) if how == "timeout" && !*must_err => {
+                // e.g. a changed operand that turns the program into a loop: not a loader fault
+                out.count(&format!("B:{}:timeout-not-judged", kind));
+            }
             LoadOutcome::Crash(how) => {
                 out.count(&format!("B:{}:crash", kind));
                 let sig = how.split(' ').next().unwrap_or("").to_string();
+                let operand = *kind == "number" && is_operand_path(path);
+                if operand {
+                    out.count(&format!("B:unvalidated-operand:{}:{}", sig, path));
+                }
                 out.oracle_fail(
-                    &format!("crash:{}:{}:{}", kind, sig, crash_class(&how)),
+                    &if operand {
+                        format!("unvalidated-operand:{}", sig)
+                    } else {
+                        format!("crash:{}:{}:{}", kind, sig, if *kind == "truncate" || *kind == "missing-module" || *kind == "rename-global" { String::new() } else { path.clone() })
+                    },
                     &format!("loading damaged bytecode ({} at {}) kills the process: {}", kind, path, how),
                     replay.clone(),
                 );
@@ -1715,7 +1879,7 @@ fn replay_case(out: &mut Out, case: &serde_json::Value) {
     let mut damaged = vec![];
     println!("source:\n{}", p.src);
     println!("source result: {:?}", run_source(&mk_vm(p.prelude, p.helper), "test", &p.src));
-    check_program(out, &mut rng, &p, &vs, true, &mut damaged, 0, 0);
+    check_program(out, &mut rng, &p, &vs, true, &mut damaged, 0, 0, false);
     damaged.clear();
     if let Some(dmg) = case["damage"].as_str() {
         let flags = format!("{}{}", if p.prelude { "p" } else { "-" }, if p.helper { "h" } else { "" });
@@ -1762,26 +1926,24 @@ fn main() {
         out.finish();
         return;
     }
-    if args.extra.iter().any(|x| x == "--probe") {
-        let mut rng = Rng::new(args.seed, 99);
-        for _ in 0..3 {
-            let p = gen_program(&mut rng, false, false);
-            println!("---\n{}", p.src);
-            let vm = mk_vm(false, false);
-            println!("src: {:?}", run_source(&vm, "test", &p.src));
-            match compile_bc(&vm, "test", &p.src) {
-                Ok(b) => {
-                    println!("{}", String::from_utf8_lossy(&b));
-                    println!("bc: {:?}", run_bc(&vm, "test", &b));
-                }
-                Err(e) => println!("compile error {}", e),
+    if let Some(i) = args.extra.iter().position(|x| x == "--probe") {
+        // `--probe FILE [p][h]`: show the bytecode text and both results for one source file
+        let src = std::fs::read_to_string(&args.extra[i + 1]).unwrap();
+        let fl = args.extra.get(i + 2).cloned().unwrap_or_default();
+        let vm = mk_vm(fl.contains('p'), fl.contains('h'));
+        println!("src: {:?}", run_source(&vm, "test", &src));
+        match compile_bc(&vm, "test", &src) {
+            Ok(b) => {
+                println!("{}", String::from_utf8_lossy(&b));
+                println!("bc: {:?}", run_bc(&vm, "test", &b));
+                let vm2 = mk_vm(fl.contains('p'), false);
+                println!("bc in a VM without the helper module: {:?}", run_bc(&vm2, "test", &b));
             }
+            Err(e) => println!("compile error {}", e),
         }
-        let p = gen_dag(&mut rng);
-        println!("---\n{}", p.src);
-        let vm = mk_vm(false, false);
-        let (v, _) = vm.run_expr::<OpaqueValue<RootedThread, Hole>>("d", &p.src).unwrap();
-        println!("{}", String::from_utf8_lossy(&ser_value(v.get_variant()).unwrap()));
+        if let Ok((v, _)) = vm.run_expr::<OpaqueValue<RootedThread, Hole>>("d", &src) {
+            println!("value: {:?}", ser_value(v.get_variant()).map(|b| String::from_utf8_lossy(&b).into_owned()));
+        }
         return;
     }
     let thorough = args.thorough();
@@ -1792,6 +1954,19 @@ fn main() {
     let n_helper = if thorough { 300 } else { 50 };
     let n_prelude = if thorough { 60 } else { 8 };
     let (n_trunc, n_corrupt) = if thorough { (10, 16) } else { (6, 8) };
+    // corpus: minimised past failures run first (file name suffix `_h` = helper module, `_p` = prelude)
+    if let Ok(rd) = std::fs::read_dir("/verif/corpus/C12") {
+        let mut files: Vec<_> = rd.filter_map(|e| e.ok()).map(|e| e.path()).filter(|p| p.extension().map_or(false, |x| x == "glu")).collect();
+        files.sort();
+        for f in files {
+            let stem = f.file_stem().unwrap().to_string_lossy().into_owned();
+            let (prelude, helper) = (stem.ends_with("_p"), stem.ends_with("_h"));
+            let p = Prog { src: std::fs::read_to_string(&f).unwrap(), feats: vec!["corpus"], prelude, helper };
+            let vs = vms(prelude, helper);
+            check_program(&mut out, &mut rng, &p, &vs, true, &mut damaged, n_trunc, n_corrupt, true);
+            out.count("A:corpus-programs");
+        }
+    }
     for (prelude, helper, n) in [(false, false, n_plain), (false, true, n_helper), (true, false, n_prelude)] {
         let mut vs = vms(prelude, helper);
         for i in 0..n {
@@ -1800,7 +1975,12 @@ fn main() {
             }
             vs.uses += 1;
             let p = gen_program(&mut rng, prelude, helper);
-            check_program(&mut out, &mut rng, &p, &vs, i % 10 == 0, &mut damaged, n_trunc, n_corrupt);
+            let before = out.n_oracle_fail;
+            check_program(&mut out, &mut rng, &p, &vs, i % 10 == 0, &mut damaged, n_trunc, n_corrupt, i < 3);
+            if out.n_oracle_fail != before {
+                // a panic inside a VM poisons its locks: start from new VMs after any failure
+                vs.uses = 1000;
+            }
         }
     }
     // exhaustive truncation of one small program: every byte position
